@@ -302,15 +302,15 @@ theorem spec_checkSameHash (cur t : Token) (c : Ctx) :
   unfold checkSameHash
   split
   · rename_i cm hcm
-    apply Post.bind
-    apply Post.deref
-    intro tm htm
-    apply Post.guardE
-    intro hh
-    refine ⟨rfl, fun cm' hcm' => ?_⟩
-    rw [hcm] at hcm'
-    cases hcm'
-    exact ⟨tm, htm, by simpa using hh⟩
+    split
+    · rename_i tm htm
+      apply Post.guardE
+      intro hh
+      refine ⟨rfl, fun cm' hcm' => ?_⟩
+      rw [hcm] at hcm'
+      cases hcm'
+      exact ⟨tm, htm, by simpa using hh⟩
+    · exact Post.fail
   · rename_i hcm
     exact Post.pure ⟨rfl, fun cm' hcm' => by rw [hcm] at hcm'; cases hcm'⟩
 
